@@ -240,17 +240,37 @@ def c12(chk):
         ok = False
         if len(leaves) == 1 and leaves[0].kind == 'return' and leaves[0].value[0] == 'adt':
             v = leaves[0].value
-            adt = prog.adts[v[1]]
-            fields = dict((f['name'], v[3][i]) for i, f in enumerate(adt['variants'][0]['fields']))
             try:
-                ra = struct_field(prog, fields['request'], 'address')
-                pa = struct_field(prog, fields['response'], 'address')
-                ok = ra == pa == in_term('address')
+                ra = role_value(an, prog, v, ('request', 'address'))
+                pa = role_value(an, prog, v, ('response', 'address'))
+                ok = ra == pa == in_term(param_names(prog, an.entries['ctx.new']['key'])[0])
             except Exception:
                 ok = False
         chk.ob('C12.new', 'MCTPSMBusContext::new', ok, chk.key('ctx.new', 'C12.new', an.entries['ctx.new']['key'], 'address-not-shared'),
                'MCTPSMBusContext::new does not give both halves the address it was constructed with')
     chk.floor('responding leaves (plus reported unanalysable paths)', n, 20)
+
+
+def role_value(an, prog, v, role, table='ctx'):
+    """The sub-value of a context value `v` that plays `role` ('uuid', 'msg_types', ...): found through the roles
+    discovered from the public API (engine/roles.py), not through the private field's name."""
+    an.rename_tables()
+    path = None
+    want = ('self',) + (role if isinstance(role, tuple) else (role,))
+    for actual, canon in an.roles_found.get(table, []):
+        if canon == want:
+            path = actual[1:]
+    if path is None:
+        raise KeyError(role)
+    for nm in path:
+        v = struct_field(prog, v, nm)
+    return v
+
+
+def param_names(prog, key):
+    inst = prog.instances[key]
+    names = dict((a, n) for a, n in inst['body']['names'])
+    return [names.get(i + 1, 'arg%d' % (i + 1)) for i in range(len(inst['sig']['inputs']))]
 
 
 def struct_field(prog, v, name):
@@ -396,7 +416,7 @@ def c13(chk):
             if ok:
                 v = leaves[0].value
                 try:
-                    cell = struct_field(prog, v, 'eid')
+                    cell = role_value(an, prog, v, 'eid', table='Req' if half == 'request' else 'Resp')
                     ok = cell == ('model', 'cell', K(8, 0))
                 except Exception:
                     ok = False
@@ -438,10 +458,8 @@ def c13(chk):
                 cc, status, eid, pool = (cellval(ordered, i) for i in (11, 12, 13, 14))
                 ok = all(x is not None for x in (cc, status, eid, pool)) and eq_under(know, cc, K(8, 0)) is True and \
                     eq_under(know, status, K(8, 0)) is True and eq_under(know, eid, want) is True
-                # the EID must be read after the write
-                idx_w = max(i for i, e in enumerate(lf.effects) if e[0] == 'cellwrite' and e[1] == RESP_EID) if RESP_EID in targets else -1
-                idx_r = [i for i, e in enumerate(lf.effects) if e[0] == 'cellread' and e[1] == RESP_EID]
-                ok = ok and idx_r and min(idx_r) > idx_w
+                # (the answer's EID byte equals the requested EID, which is also what both cells now hold: whether the
+                # encoder re-reads the cell or uses the request byte is not observable and not demanded)
             chk.ob('C13.b', r.sub + ' answer', ok, chk.key(ENT, 'C13.b', r.fn, 'assignment-answer'),
                    'an accepted assignment is not answered with Success, status accepted and the new EID', site=r.sp,
                    detail={'leaf': dump_leaf(lf, prog, na)})
@@ -507,7 +525,8 @@ def c13(chk):
         if s in an.entries:
             leaves, _ = an.leaves(s)
             w = [e for e in leaves[0].effects if e[0] == 'cellwrite'] if leaves else []
-            ok = len(leaves) == 1 and leaves[0].kind == 'return' and len(w) == 1 and w[0][1] == 'self.eid' and w[0][2] == in_term('eid')
+            pn = param_names(prog, an.entries[s]['key'])[1]
+            ok = len(leaves) == 1 and leaves[0].kind == 'return' and len(w) == 1 and w[0][1] == 'self.eid' and w[0][2] == in_term(pn)
             chk.ob('C13.d', s, ok, chk.key(s, 'C13.d', an.entries[s]['key'], 'set_eid-not-the-cell'),
                    'set_eid of the %s half does not store its argument in its EID cell' % tag)
 
@@ -694,8 +713,9 @@ def c15(chk):
         if ok:
             selfv = rets[0].heap.get('self')
             try:
-                arr = struct_field(prog, selfv, 'uuid')
-                ok = arr == ('array', tuple(in_term('uuid', j) for j in range(16)))
+                arr = role_value(an, prog, selfv, 'uuid')
+                pn = param_names(prog, an.entries['ctx.set_uuid']['key'])[1]
+                ok = arr == ('array', tuple(in_term(pn, j) for j in range(16)))
             except Exception:
                 ok = False
         chk.ob('C15.frame', 'set_uuid', ok, chk.key('ctx.set_uuid', 'C15.frame', an.entries['ctx.set_uuid']['key'], 'set_uuid-not-whole-copy'),
@@ -707,7 +727,7 @@ def c15(chk):
         ok = len(leaves) == 1 and leaves[0].kind == 'return'
         if ok:
             try:
-                ok = struct_field(prog, leaves[0].value, 'uuid') == ('array', (K(8, 0),) * 16)
+                ok = role_value(an, prog, leaves[0].value, 'uuid') == ('array', (K(8, 0),) * 16)
             except Exception:
                 ok = False
         chk.ob('C15.frame', 'new', ok, chk.key('ctx.new', 'C15.frame', an.entries['ctx.new']['key'], 'initial-uuid'),
